@@ -109,6 +109,13 @@ impl TaskManager {
 					}
 
 					running.store(false, Ordering::SeqCst);
+
+					// wake_up_memtable() is silent while `running` is set. A memtable
+					// rotated after our last look at the queue but before the flag was
+					// cleared has therefore no wake-up pending: look again.
+					if core.has_pending_immutables() {
+						notify.notify_one();
+					}
 				}
 			});
 			task_handles.lock().unwrap().as_mut().unwrap().push(handle);
